@@ -7,7 +7,7 @@ from . import small as SM
 
 CONFIG = {
     'C01': dict(xcheck=True, streams=[('td_class', 480), ('td_wf', 880), ('td_coarse', 320), ('fail_wf', 200), ('panic', 240), ('multi', 40), ('inj_cycle', 240), ('inj_hidden', 80), ('inj_overlap', 80)], keep='om'),
-    'C02': dict(streams=[('td_exact', 880), ('td_wf', 480), ('td_mid', 160), ('panic', 240), ('fail_wf', 240), ('fail_exact', 320)], keep='ov'),
+    'C02': dict(streams=[('td_exact', 880), ('td_wf', 480), ('td_mid', 160), ('panic', 240), ('fail_wf', 240), ('fail_exact', 320), ('bu_wf', 240), ('newreq', 120)], keep='ov'),
     'C03': dict(xcheck=True, streams=[('bu_class', 320), ('bu_wf', 720), ('mixed_wf', 320), ('newreq', 160), ('cutoff_newreq', 160), ('reported_products', 160), ('fail_bu', 200), ('mid_session', 160), ('abort_bu', 120)], keep='ovm', extra='lossy'),
     'C04': dict(xcheck=True, streams=[('bu_class', 320), ('bu_wf', 960), ('mixed_wf', 160), ('newreq', 160), ('cutoff_newreq', 240), ('reported_products', 120), ('abort_bu', 240)], keep='ov'),
     'C05': dict(streams=[('inj_hidden', 1200), ('siblings', 240), ('td_wf', 160), ('same_session', 80), ('chain_readers', 160), ('newreq', 240), ('cycle_then_hidden', 160)], keep='om', extra='wabort'),
@@ -19,7 +19,7 @@ CONFIG = {
     'C17': dict(streams=[('td_wf', 480), ('bu_wf', 480), ('fail_wf', 240), ('panic', 160), ('failstamp', 160)], keep='v', extra='tracker'),
     'C18': dict(streams=[('fail_wf', 800), ('fail_bu', 500), ('fail_mixed', 300), ('fail_panic', 400)], keep='eov', extra='flaky'),
     'C19': dict(xcheck=True, streams=[('panic', 800), ('abort_bu', 160), ('inj_hidden', 200), ('inj_overlap', 200), ('inj_cycle', 200), ('same_abort', 120)], keep='od'),
-    'C20': dict(streams=[('td_class', 320), ('td_wf', 480), ('bu_wf', 240), ('roles', 640), ('same_abort', 120), ('chain_readers', 200)], keep='o'),
+    'C20': dict(streams=[('td_class', 320), ('td_wf', 480), ('bu_wf', 240), ('roles', 640), ('same_abort', 120), ('chain_readers', 200), ('role_swap_bu', 200)], keep='o'),
 }
 THOROUGH_FACTOR = 12
 
@@ -54,6 +54,9 @@ def make_case(rng, stream, big=False):
     if stream == 'abort_bu':
         p, steps, meta = P.gen_abort_bu_program(rng)
         return p, steps, norm_meta(meta, 'mixed')
+    if stream == 'role_swap_bu':
+        p, steps = P.gen_role_swap_bu_program(rng)
+        return p, steps, norm_meta({}, 'roles')
     if stream == 'cycle_then_hidden':
         p, steps = P.gen_cycle_then_hidden_program(rng)
         return p, steps, norm_meta({}, 'td')
@@ -515,7 +518,10 @@ ALSO = {'C01': {('C18', 'stale-output'), ('C18', 'stale-resource'),
                 ('C19', 'stale-output'), ('C19', 'stale-resource')},
         # a dependency the store records although the task's latest execution did not create it makes later builds re-execute the
         # task for no reason a from-scratch build would have (the "only if one of ITS dependencies ..." clause)
-        'C02': {('C08', 'recorded-deps-differ'), ('C08', 'phantom-dependency'), ('C19', 'phantom-dependency')},
+        'C02': {('C08', 'recorded-deps-differ'), ('C08', 'phantom-dependency'), ('C19', 'phantom-dependency'),
+                # a task that COMPLETED in a bottom-up build and is executed again by a later require with nothing changed ("only if it
+                # has never completed before or a dependency ... is reported inconsistent")
+                ('C03', 'stale-after-bottom-up')},
         # the bottom-up build must leave every known task up to date also when a checker fails while scheduling
         'C03': {('C18', 'stale-after-erring-bottom-up'), ('C09', 'dependency-not-checked'), ('C09', 'requirer-not-checked')},
         'C04': {('C09', 'requirer-not-checked'), ('C09', 'dependency-not-checked')},
